@@ -90,6 +90,10 @@ pub struct Profile {
     pub serde_buffer_safe: bool,
     /// allow `#[ts(inline)]` of generics whose parameter default is a user type (known finding)
     pub known_inline_default: bool,
+    /// no `../` in export_to (import specifiers then do not depend on the base directory)
+    pub no_parent_escape: bool,
+    /// keep `export type ..` out of field/variant docs (known finding of the same-file merge)
+    pub doc_merge_safe: bool,
 }
 
 impl Profile {
@@ -121,6 +125,8 @@ impl Profile {
             known_newtype_skip: false,
             serde_buffer_safe: false,
             known_inline_default: false,
+            no_parent_escape: false,
+            doc_merge_safe: false,
         }
     }
 }
@@ -429,11 +435,22 @@ impl Cx<'_> {
     }
 
     fn gen_doc(&mut self, t: &mut Tape) -> Option<Doc> {
+        self.gen_doc_at(t, false)
+    }
+
+    /// `inner`: the doc sits inside a declaration body (field / variant)
+    fn gen_doc_at(&mut self, t: &mut Tape, inner: bool) -> Option<Doc> {
         if !t.pct(self.p.docs) {
             return None;
         }
         let n = 1 + t.choose(3);
         let mut lines: Vec<String> = (0..n).map(|_| t.pick(DOC_LINES).to_string()).collect();
+        if inner && self.p.doc_merge_safe {
+            lines.retain(|l| !l.contains("export type"));
+            if lines.is_empty() {
+                lines.push(" inner doc".into());
+            }
+        }
         if self.p.nasty_docs && t.pct(25) {
             lines.push(t.pick(DOC_NASTY).to_string());
         }
@@ -507,7 +524,7 @@ impl Cx<'_> {
             None
         };
         let mut f = Field { ident, ty: self.gen_ty(t, params), ..Field::default() };
-        f.docs = self.gen_doc(t);
+        f.docs = self.gen_doc_at(t, true);
         // flatten
         if named && allow_flatten && t.pct(self.p.flatten) {
             // the same definition must not be flattened twice into one object (duplicate keys
@@ -577,9 +594,13 @@ impl Cx<'_> {
         }
         if t.pct(self.p.export_to) {
             let dirs = ["", "models/", "models/sub/", "a.b/", "../up/", "deep/er/est/", "models_v2/", "models_v2/sub/", "mod/"];
-            let d = *t.pick(&dirs);
+            let mut d = *t.pick(&dirs);
+            if self.p.no_parent_escape && d.starts_with("..") {
+                d = "up/";
+            }
             attrs.export_to = Some(if t.pct(self.p.shared_files) {
-                format!("{d}{}", t.pick(&["shared.ts", "common.ts", "types.ts"]))
+                // few distinct targets, so that several types of a module really meet in one file
+                t.pick(&["shared.ts", "models/common.ts", "models/common.ts", "a.b/types.ts"]).to_string()
             } else if t.pct(30) {
                 format!("{d}{}_file.ts", ident.trim_start_matches("r#").to_lowercase())
             } else if d.is_empty() {
@@ -677,7 +698,7 @@ impl Cx<'_> {
                     }
                 }
                 let mut v = Variant { ident: vident, body, ..Variant::default() };
-                v.docs = self.gen_doc(t);
+                v.docs = self.gen_doc_at(t, true);
                 if t.pct(self.p.rename) {
                     v.rename = Some(self.rename_string(t, &mut vnames));
                 }
@@ -857,5 +878,5 @@ pub fn gen_module(words: &[u32], profile: &Profile, name: &str) -> Module {
             }
         }
     }
-    Module { name: name.to_string(), types: cx.types, insts, serde: profile.serde }
+    Module { name: name.to_string(), types: cx.types, insts, serde: profile.serde, extra_roots: vec![] }
 }
